@@ -304,6 +304,9 @@ pub struct StructSpec {
     /// declared as `struct S<T>` whose first field has the declared type `T` (with
     /// `needs_predicate`); every use instantiates `T` with that field's `ty`
     pub generic: bool,
+    /// shape of the generics when `generic`: 0 = `<T>`; 1 = `<T, const N: usize>` (the last field is
+    /// declared `[P<u8>; N]`); 2 = `<T, U> where T: Debug` (the second field is declared `P<Vec<U>>`)
+    pub generic_kind: u8,
     /// the `validate` function returns the container's own error type (`-> __Deserr_E` / `-> RecA`)
     /// instead of the foreign `ValErr`
     pub same_err: bool,
@@ -312,7 +315,7 @@ pub struct StructSpec {
 
 impl StructSpec {
     pub fn plain(fields: Vec<FieldSpec>) -> Self {
-        StructSpec { style: 0, rename_all: None, deny: Deny::No, validate: false, concrete: false, generic: false, same_err: false, fields }
+        StructSpec { style: 0, rename_all: None, deny: Deny::No, validate: false, concrete: false, generic: false, generic_kind: 0, same_err: false, fields }
     }
 }
 
@@ -337,6 +340,8 @@ pub struct EnumSpec {
     pub concrete: bool,
     /// see `StructSpec::same_err`
     pub same_err: bool,
+    /// declared as `enum E<T>`: the first field of the second variant has the declared type `T`
+    pub generic: bool,
     pub variants: Vec<VariantSpec>,
 }
 
